@@ -9,7 +9,7 @@ import itertools
 
 from ..core import AnchorError, call_name, decorators, norm, short, own_nodes, kwarg, FUNC_TYPES
 from ..cfg import cfg_of
-from ..lib import calls_in, stmts_in, gate, must_pass, node_has, params, none_accept
+from ..lib import calls_in, stmts_in, gate, must_pass, node_has, params, none_accept, effective_body
 
 NAMES = 'jedi.inference.names'
 CLS = 'jedi.api.classes'
@@ -33,13 +33,13 @@ def rule_a(repo, chk):
         n += 1
         if ci.key in triaged:
             want = triaged[ci.key][0]
-            body = '; '.join(norm(s) for s in sp.body if not (isinstance(s, ast.Expr) and isinstance(s.value, ast.Constant))) if sp is not None else norm(at)
+            body = '; '.join(norm(s) for s in effective_body(sp)) if sp is not None else norm(at)
             ok = want is None or body == want
             kinds['listed'] += 1
             chk.ob('C17.a', ok, sp if sp is not None else at, '%s.start_pos is a listed exception (%s)' % (ci.qual, triaged[ci.key][1]), body, key='start_pos|%s' % ci.key)
             continue
         if sp is not None:
-            body = [s for s in sp.body if not (isinstance(s, ast.Expr) and isinstance(s.value, ast.Constant))]
+            body = effective_body(sp)
             ok = len(body) == 1 and norm(body[0]) == 'return self.tree_name.start_pos' and 'property' in decorators(sp)
             kinds['token'] += ok
             chk.ob('C17.a', ok, sp, '%s.start_pos returns the parso token\'s own start_pos, unmodified' % ci.qual, '; '.join(norm(s) for s in body), key='start_pos|%s' % ci.key)
